@@ -202,7 +202,10 @@ def states_job(params):
                 for t in range(T):
                     pass
                 # per bin and state: count of frames whose state string is `state` and whose distance falls in the bin
-                for state, r in entries:
+                # the '~>' states (one side unknown) are not specified individually: only their total per (symbol, bin) is compared
+                tilde = [r for st_, r in entries if st_.startswith('~>')]
+                grouped = [(st_, [r]) for st_, r in entries if not st_.startswith('~>')] + ([('~>', tilde)] if tilde else [])
+                for state, rs in grouped:
                     for b in range(nbin):
                         terms = []
                         for t in range(T):
@@ -224,7 +227,7 @@ def states_job(params):
                             in_bin = conj([lo_ok, q <= nb_edges[b] ** 2])
                             terms.append(ite(conj([in_state, in_bin]), 1, 0))
                         prove("per-state RDF entry = number of (frame, atom pair) in that state and distance bin ('@X' only at sites "
-                              "labelled X, 'X->Y' only between leaving X and reaching Y)", r.y[b] == core.ssum(terms))
+                              "labelled X, 'X->Y' only between leaving X and reaching Y)", core.ssum([r.y[b] for r in rs]) == core.ssum(terms))
                 # partition: every pair within the cut-off is counted in exactly one state and bin
                 tot = core.ssum([core.ssum(list(r.y)) for _, r in entries])
                 within = []
